@@ -1,9 +1,27 @@
-//! Counting global allocator (per thread), for C09.
+//! Counting global allocator (per thread), for C09. It also fills every fresh block (and the grown
+//! tail of a reallocated one) with a byte pattern, so that heap memory that is read before it is
+//! written has a deterministic, visible value instead of whatever the process left there:
+//! 0x41 reads as 2.2e6 (f64) / 12.1 (f32), 0x42 as 1.6e11 / 48.6. `HX_POISON=<byte>` selects the
+//! pattern (0 switches the fill off); the fresh-process references of C18 use a different one.
 
 use std::alloc::{GlobalAlloc, Layout, System};
 use std::cell::Cell;
 
 pub struct Counting;
+
+static POISON: std::sync::atomic::AtomicU8 = std::sync::atomic::AtomicU8::new(0x41);
+
+pub fn set_poison(b: u8) {
+    POISON.store(b, std::sync::atomic::Ordering::Relaxed);
+}
+
+#[inline]
+unsafe fn fill(p: *mut u8, n: usize) {
+    let b = POISON.load(std::sync::atomic::Ordering::Relaxed);
+    if b != 0 && !p.is_null() {
+        std::ptr::write_bytes(p, b, n);
+    }
+}
 
 thread_local! {
     static ALLOCS: Cell<u64> = const { Cell::new(0) };
@@ -14,7 +32,9 @@ thread_local! {
 unsafe impl GlobalAlloc for Counting {
     unsafe fn alloc(&self, layout: Layout) -> *mut u8 {
         let _ = ALLOCS.try_with(|c| c.set(c.get() + 1));
-        System.alloc(layout)
+        let p = System.alloc(layout);
+        fill(p, layout.size());
+        p
     }
     unsafe fn dealloc(&self, ptr: *mut u8, layout: Layout) {
         let _ = DEALLOCS.try_with(|c| c.set(c.get() + 1));
@@ -26,7 +46,11 @@ unsafe impl GlobalAlloc for Counting {
     }
     unsafe fn realloc(&self, ptr: *mut u8, layout: Layout, new_size: usize) -> *mut u8 {
         let _ = REALLOCS.try_with(|c| c.set(c.get() + 1));
-        System.realloc(ptr, layout, new_size)
+        let p = System.realloc(ptr, layout, new_size);
+        if new_size > layout.size() && !p.is_null() {
+            fill(p.add(layout.size()), new_size - layout.size());
+        }
+        p
     }
 }
 
